@@ -2,26 +2,21 @@
 (set-info :status unknown)
 (declare-fun xs!n!1 () Int)
 (declare-fun xs!isnone (Int) Bool)
-(declare-fun min!witness!3 () Int)
+(declare-fun max!witness!3 () Int)
 (declare-fun xs!val (Int) Int)
 (assert
  (>= xs!n!1 0))
 (assert
- (let (($x42 (not (xs!isnone min!witness!3))))
- (and (and (>= min!witness!3 0) (< min!witness!3 xs!n!1)) $x42)))
+ (let (($x42 (not (xs!isnone max!witness!3))))
+ (and (and (>= max!witness!3 0) (< max!witness!3 xs!n!1)) $x42)))
 (assert
- (forall ((j!q Int) )(let ((?x51 (xs!val min!witness!3)))
+ (forall ((j!q Int) )(let ((?x51 (xs!val max!witness!3)))
  (let ((?x61 (xs!val j!q)))
- (let (($x62 (>= ?x61 ?x51)))
- (let (($x36 (xs!isnone j!q)))
- (let (($x63 (not $x36)))
- (let (($x38 (>= j!q 0)))
- (let (($x39 (and $x38 (< j!q xs!n!1))))
- (let (($x64 (and $x39 $x63)))
- (=> $x64 $x62))))))))))
+ (let (($x62 (<= ?x61 ?x51)))
+ (=> (and (and (>= j!q 0) (< j!q xs!n!1)) (not (xs!isnone j!q))) $x62)))))
  )
 (assert
- (let (($x68 (exists ((j!q Int) )(let ((?x51 (xs!val min!witness!3)))
+ (let (($x68 (exists ((j!q Int) )(let ((?x51 (xs!val max!witness!3)))
 (let ((?x61 (xs!val j!q)))
 (let (($x60 (= ?x61 ?x51)))
 (let (($x36 (xs!isnone j!q)))
